@@ -85,3 +85,19 @@ void h_INCLUDE_lines(void) {
     VPOST(IncDepth == depth0 - 1, "C20: the include nesting shown in the listing goes back by one");
     VREACH("end");
 }
+
+/* GenerateProcessor: every new input level (macro call, REPT/IRP/IRPC/WHILE body, include) starts from the line of the
+ * statement that opens it -- CurrLine, which inside a replayed loop body differs from the file's line counter (that one
+ * already stands behind the loop).  The processors add the body line to StartLine (h_REPT_step / h_IRP_step), so
+ * diagnostics, listing and MAP entries of a macro called inside a loop body name the calling line. */
+void h_GenerateProcessor(void) {
+    PInputTag t;
+    VND(MomLineCounter, int); VASSUME(MomLineCounter >= 0 && MomLineCounter < 100000000);
+    VND(CurrLine, int); VASSUME(CurrLine >= 0 && CurrLine <= MomLineCounter);
+    VND(CurrIncludeLevel, int); FirstInputTag = NULL;
+    t = GenerateProcessor();
+    VPOST(t != NULL && t->StartLine == CurrLine, "C20: a new input level starts from the line of the statement that opens it (CurrLine), not from the file's read position");
+    VPOST(t->First && t->LineZ == 1 && !t->IsEmpty && t->Next == NULL, "C11: a fresh input level is at its first body line and has not opened a local symbol space");
+    VPOST(t->IncludeLevel == CurrIncludeLevel && t->IfLevel == 3, "C12: the level remembers the conditional nesting it was opened at");
+    VREACH("end");
+}
